@@ -1102,9 +1102,9 @@ func (g *gen) next() []string {
 		if r.Chance(40) {
 			g.queue = append(g.queue, []string{"names", op[1]})
 		}
-		if r.Chance(35) { // Bucket() / NewBucket right after DeleteBucket in the same transaction
+		if r.Chance(50) { // Bucket() / NewBucket right after DeleteBucket in the same transaction
 			d := g.dst()
-			if r.Bool() {
+			if r.Chance(30) {
 				g.queue = append(g.queue, []string{"bkt", d, op[1], op[2]})
 			} else {
 				g.queue = append(g.queue, []string{"new", d, op[1], op[2]})
@@ -1369,10 +1369,12 @@ func exhaustive(maxLen int, f func(id string, ops [][]string)) {
 		{{"clear", "0"}}, {{"put", "1", k1, v2}}, {{"delb", "0", C}}, {{"new", "1", "0", C}}, {{"names", "0"}},
 		{{"commit"}, {"dump"}, {"begin", "w"}, {"top", "w", "0", A}, {"bkt", "1", "0", C}},
 		{{"rollback"}, {"dump"}, {"begin", "w"}, {"top", "w", "0", A}, {"bkt", "1", "0", C}},
-		{{"get", "1", k1}},
+		{{"get", "1", k1}}, {{"pfx", "1", "-"}},
 	}
 	_ = B
-	epi := [][]string{{"pfx", "0", "-"}, {"names", "0"}, {"commit"}, {"dump"},
+	// the sub bucket is listed through its handle before the commit (seed C11f: a prefix read of a bucket deleted and
+	// re-created in the same transaction ignored the transaction's own deletes)
+	epi := [][]string{{"pfx", "0", "-"}, {"pfx", "1", "-"}, {"names", "0"}, {"commit"}, {"dump"},
 		{"get", "4", k1}, {"pfx", "4", "-"}, {"names", "4"}, {"pfx", "5", "-"}, {"rend"}, {"begin", "r"}, {"top", "r", "2", A}, {"iter", "0", "2", "2", k1, "-"},
 		{"next", "0"}, {"next", "0"}, {"next", "0"}, {"seek", "0", k2}, {"bkt", "3", "2", C}, {"pfx", "3", "-"}}
 	idx := make([]int, 0, maxLen)
